@@ -184,6 +184,43 @@ def exit_status_across_files(ctx, res, rng, j, xs):
                                    case=dict(journal=body, layout=k), observed='status %s, %d bytes on stdout' % (st, len(out)), required='non-zero status, no report'))
 
 
+def many_unbalanced(ctx, res, rng):
+    """the exit status is the number of refused items, and the system keeps eight bits of it: journals with 1, 2, 255, 256,
+    257, 300, 512 and 1000 transactions that do not balance (in one file and spread over two -f files, a few balanced ones
+    among them) still exit non-zero, name every one of them and print no report"""
+    for n in [1, 2, 255, 256, 257, 300, 512, 1000]:
+        xs = []
+        for i in range(n):
+            x = X.unbalance(rng, X.gen_balanced(rng, ncomm=1, with_costs=False, with_virtual=False), whole=True)
+            x.date = '2020/%02d/%02d' % (rng.randrange(1, 13), rng.randrange(1, 29))
+            xs.append(x)
+        for _ in range(3):
+            g = X.gen_balanced(rng, ncomm=1, with_costs=False, with_virtual=False)
+            g.date = '2020/06/15'
+            xs.insert(rng.randrange(0, len(xs) + 1), g)
+        cut = rng.randrange(1, len(xs))
+        layouts = [[xs]] + ([[xs[:cut], xs[cut:]]] if n > 1 else [])
+        for parts in layouts:
+            args, texts = [], []
+            base = 0
+            for k, part in enumerate(parts):
+                path = ctx.path('C01_many_%d.dat' % k)
+                text = '\n'.join(x.text(base + i) for i, x in enumerate(part))
+                base += len(part)
+                open(path, 'w').write(text)
+                texts.append(text)
+                args += ['-f', path]
+            st, out, err = lib.run_ledger(args + ['bal'])
+            res.evaluations += 1
+            res.count('many-unbalanced:%d:%d-files' % (n, len(parts)))
+            res.nontrivial.add('many:%d:%d:%s' % (n, len(parts), texts[0][:200]))
+            named = err.decode('utf-8', 'replace').count('Transaction does not balance')
+            if st == 0 or out.strip() or named != n:
+                res.violations.append(dict(key='unbalanced-exit-zero:many' if st == 0 else 'unbalanced-not-all-reported',
+                                           desc='%d transactions that do not balance (%d file(s)): exit status %s, %d of them named, %d bytes of report' % (n, len(parts), st, named, len(out)),
+                                           case=dict(journal='\n; ---- next file\n'.join(texts), count=n), observed='status %s' % st, required='non-zero status, %d errors named, no report' % n))
+
+
 def automated(ctx, res, rng, n):
     """journals with automated transactions (the C16 generator: rules of real, [balanced] and (virtual) lines in every
     order, balanced or not).  Judged on ledger's own rows alone: whatever a rule added, the postings of an ADMITTED
@@ -236,6 +273,7 @@ def run(ctx, n_override=None):
         if j % 4 == 1 and any(classify(x) == 'reject' for x in xs):
             exit_status_across_files(ctx, res, rng, j, xs)
     automated(ctx, res, rng, max(20, n // 4))
+    many_unbalanced(ctx, res, rng)
     return res
 
 
@@ -257,4 +295,6 @@ def replay(ctx, obj):
         print('status', st)
         print(out.decode()[:3000])
         print(err.decode()[:3000])
+        if case.get('count') and (st == 0 or out.strip()):
+            res.violations.append(dict(key=obj.get('key', 'unbalanced-exit-zero:many'), desc='%d transactions that do not balance: exit status %s' % (case['count'], st)))
     return res
